@@ -401,6 +401,16 @@ def config_names(lalr=None, pred=None):
     return out
 
 
+def caller_spelling(opts):
+    """option values the way callers write them (plans stay JSON): 're:<n>' stands for the re.RegexFlag member(s) - re.I, re.I | re.M -
+    that everybody passes as g_regex_flags, not for the plain int of the same value"""
+    v = opts.get('g_regex_flags')
+    if isinstance(v, str) and v.startswith('re:'):
+        import re
+        opts['g_regex_flags'] = re.RegexFlag(int(v[3:]))
+    return opts
+
+
 def options_for(cfg):
     """kwargs for Lark(...) of a config name 'entry/variant' (fresh user objects every time)"""
     name, _, variant = cfg.partition('/')
@@ -414,7 +424,7 @@ def options_for(cfg):
         opts['transformer'] = make_transformer(e.transformer)
     if e.postlex:
         opts['postlex'] = make_postlex(e.postlex)
-    return e, opts
+    return e, caller_spelling(opts)
 
 
 def build(cfg, **extra):
